@@ -228,6 +228,12 @@ func b32(f float32) string { return fmt.Sprintf("%08x", math.Float32bits(f)) }
 
 func (fspecArea) Run(line string) string {
 	f := strings.Fields(line)
+	if len(f) == 0 {
+		return "bad-op"
+	}
+	if out, ok := runPolyFamily(f); ok {
+		return out
+	}
 	if len(f) != 11 {
 		return "bad-op"
 	}
@@ -302,8 +308,12 @@ func fspecSize(r *hx.Rng) float64 {
 	}
 }
 
-func (fspecArea) Gen(r *hx.Rng, n int, _ string, emit func(string)) {
+func (a fspecArea) Gen(r *hx.Rng, n int, _ string, emit func(string)) {
 	for i := 0; i < n; i++ {
+		if r.Chance(1, 3) {
+			emit(a.genPoly(r))
+			continue
+		}
 		a := [4]float64{fspecCoord(r), fspecCoord(r), fspecSize(r), fspecSize(r)}
 		var b [4]float64
 		switch r.Intn(9) {
